@@ -46,6 +46,10 @@ fn targets() -> Vec<Name> {
     vec![nm("a"), nm("z"), nm("y.z"), nm("b.a"), nm("Q.a"), long, name_of_wire_len(255)]
 }
 
+fn wf_name(n: &[u8]) -> bool {
+    is_strict_plain_name(n) && n != [0]
+}
+
 fn count_hits(m: &Msg, s: &[u8], sm: bool) -> usize {
     let mut n = 0;
     let mut t = |name: &Name| {
@@ -132,6 +136,21 @@ pub fn check_case(x: &[u8], t: &[u8], s: &[u8], sm: bool) -> Result<String, (Str
         }
     }
     judge("pp_rename", x, &d, &expected, got, same)?;
+    // the same handle is renamed once more (back again): the object must have taken the first result in fully
+    if let Ok(e1) = &expected {
+        if t.len() <= 255 && wf_name(t) {
+            let expected2 = rename(e1, s, t, sm);
+            let got2 = caught(|| match pp.rename_with_raw_names(s, t, sm) {
+                Ok(()) => match &pp.packet {
+                    Some(p) => Ok(p.clone()),
+                    None => Err("__packet_none__".to_string()),
+                },
+                Err(e) => Err(e.to_string()),
+            });
+            let d1 = Decoded { msg: e1.clone(), ..d.clone() };
+            judge("pp_rename_twice", x, &d1, &expected2, got2, false)?;
+        }
+    }
     let hits = count_hits(&d.msg, s, sm);
     let optpos = match d.msg.ar.iter().position(|r| r.rtype == T_OPT) {
         None => "none",
